@@ -58,6 +58,31 @@ res = validate(p3)
 print("selftest 3: deleted event at line %d -> %d divergences" % (idx2 + 1, res["conf"]["ndiv"]))
 ok &= res["conf"]["ndiv"] > 0
 
+
+# ---------------------------------------------------------------------------------------------
+# --model: the specification without one of the "fix:" commits is the pinned tree's behaviour;
+# TLC must find each of those defects in the MODEL too (non-vacuity of the model-level checks)
+if "--model" in sys.argv:
+    import re
+    ALL = ["654ac52", "3f5c312", "66b62cc", "7418747", "f6702a7"]
+    cases = [("66b62cc", "MC_Node", "MC_Node_simforge.cfg", "C06", "-simulate num=20000 -depth 61", "Invariant NoPanic is violated"),
+             ("654ac52", "MC_Node", "MC_Node_simforge.cfg", "C11", "-simulate num=60000 -depth 61", "Invariant MonitorsQuiet is violated"),
+             ("3f5c312", "MC_Node", "MC_Node_simforge.cfg", "C19", "-simulate num=20000 -depth 61", "Invariant MonitorsQuiet is violated"),
+             ("7418747", "MC_Cluster", "MC_Cluster_c18_n2.cfg", None, None, "Temporal property Terminates was violated")]
+    for sha, module, cfg, monset, sim, expect in cases:
+        t = open(os.path.join(ROOT, "spec", cfg)).read()
+        t = re.sub(r"Fixes = \{[^}]*\}", "Fixes = {" + ", ".join('"%s"' % f for f in ALL if f != sha) + "}", t)
+        tmp = "_selftest_nofix_%s.cfg" % sha
+        open(os.path.join(ROOT, "spec", tmp), "w").write(t)
+        try:
+            rc, out = check.tlc(module, tmp, work, extra_env={"MC_MONSET": monset} if monset else None, workers=6,
+                                timeout=1200, simulate=sim, xmx="8g")
+        finally:
+            os.remove(os.path.join(ROOT, "spec", tmp))
+        found = expect in out
+        print("selftest model: spec without fix %s -> %s" % (sha, "TLC reports: " + expect if found else "NOT FOUND"))
+        ok &= found
+
 import shutil
 shutil.rmtree(work, ignore_errors=True)
 print("selftest:", "OK" if ok else "FAILED")
